@@ -89,7 +89,7 @@ theorem specRows_classif (o : NumOracle F) (D : List Dom) : ∀ (rows' : List (L
       · exact i3 e he
 
 theorem specRows_inputs (o : NumOracle F) (D : List Dom) : ∀ (rows' : List (List Str)) (m : ClassMap),
-    (∀ r' ∈ rows', RowOK o D r') →
+    (∀ r' ∈ rows', RowOKx o D r') →
     (∀ e ∈ (specRows o D m rows').2, e.input.length = (D.tail.filter (fun d => d ≠ .void)).length) ∧
     (specRows o D m rows').2.length = rows'.length := by
   intro rows'
@@ -99,19 +99,19 @@ theorem specRows_inputs (o : NumOracle F) (D : List Dom) : ∀ (rows' : List (Li
     intro m h
     have hr := h r' (by simp)
     cases D with
-    | nil => simp [RowOK] at hr
+    | nil => simp [RowOKx] at hr
     | cons d ds =>
       cases r' with
-      | nil => simp [RowOK] at hr
+      | nil => simp [RowOKx] at hr
       | cons v0 vs =>
-        simp only [RowOK] at hr
+        simp only [RowOKx] at hr
         obtain ⟨i1, i2⟩ := ih (outVal o m d v0).2 (fun x hx => h x (by simp [hx]))
         simp only [specRows, outDom_cons, List.tail_cons, List.length_cons] at *
         refine ⟨?_, by rw [i2]⟩
         intro e he
         simp only [List.mem_cons] at he
         rcases he with rfl | he
-        · exact inputVals_length o ds vs hr.2.1
+        · exact inputVals_length o ds vs hr.2
         · exact i1 e he
 
 theorem examplesValid_regr (inSize : Nat) : ∀ (es : List (Example F)),
@@ -280,22 +280,15 @@ def colNames (outIdx : Option Nat) (hdr : Option (List Str)) (n : Nat) : List St
   | none => List.replicate n []
 
 theorem isValid_spec (df : DF F) (o : NumOracle F) (D : List Dom) (rows' : List (List Str))
-    (hne : rows' ≠ []) (hrows : ∀ r' ∈ rows', RowOK o D r')
+    (hrows : ∀ r' ∈ rows', RowOKx o D r')
     (hcls : Regr o D rows' ∨ (Classif o D rows' ∧ (specRows o D [] rows').1.length ≠ 1))
     (hex : df.examples = (specRows o D [] rows').2) (hcl : df.classes = (specRows o D [] rows').1)
-    (hv : VoidClean df.cols) : isValid df = .ok true ∧ df.examples.isEmpty = false := by
+    (hv : VoidClean df.cols) : isValid df = .ok true ∧ df.examples.length = rows'.length := by
   obtain ⟨hin, hlen⟩ := specRows_inputs o D rows' [] hrows
-  have hne' : df.examples ≠ [] := by
-    intro h
-    rw [hex] at h
-    rw [h] at hlen
-    cases rows' with
-    | nil => exact hne rfl
-    | cons a b => simp at hlen
+  refine ⟨?_, by rw [hex, hlen]⟩
   cases hes : df.examples with
-  | nil => exact absurd hes hne'
+  | nil => simp [isValid, hes, pure, Except.pure]
   | cons e0 es =>
-    refine ⟨?_, by simp⟩
     have he0 : e0.input.length = (D.tail.filter (fun d => d ≠ .void)).length :=
       hin e0 (by rw [← hex, hes]; simp)
     unfold isValid
@@ -339,11 +332,15 @@ theorem readCsvRecs_faithful (cfg : Cfg) (o : NumOracle F) (outIdx : Option Nat)
       st'.df.examples = (specRows o (kinds o true (prep outIdx r0)) [] ((r0 :: rest).map (prep outIdx))).2 →
       readCsvRecs cfg o outIdx hdr.isSome (hdr.toList ++ r0 :: rest) = .ok st'.df := by
     intro st' hf hv hc he
-    obtain ⟨hval, hnem⟩ := isValid_spec st'.df o _ _ (by simp)
+    obtain ⟨hval, hlen⟩ := isValid_spec st'.df o _ _
       (fun r' hr' => by
         simp only [List.mem_map] at hr'
         obtain ⟨r, hr, rfl⟩ := hr'
-        exact hrows r hr) hcls he hc hv
+        exact rowOK_x o _ _ (hrows r hr)) hcls he hc hv
+    have hnem : st'.df.examples.isEmpty = false := by
+      cases hes : st'.df.examples with
+      | nil => rw [hes] at hlen; simp at hlen
+      | cons a b => rfl
     unfold readCsvRecs
     simp only [hf, bind, Except.bind, hval, hnem, Bool.not_true, Bool.or_self, Bool.false_eq_true,
       if_false, pure, Except.pure]
